@@ -7,7 +7,8 @@ from harness import pipeline as PL, solver as S
 
 SPEC = {
     "gen": ["Rotations", "GetHkl"],
-    "modules": ["DiffcalcProofs.Props.C01", "DiffcalcProofs.Props.C01Sample", "DiffcalcProofs.Props.C01Detector", "DiffcalcProofs.Props.C01Assembly"],
+    "modules": ["DiffcalcProofs.Props.C01", "DiffcalcProofs.Props.C01Sample", "DiffcalcProofs.Props.C01Detector", "DiffcalcProofs.Props.C01Assembly",
+                "DiffcalcProofs.Props.C01Assembly2"],
     "theorems": {"DiffcalcProofs.Props.C01": [
         "C01.getPosition_guard", "C01.getPosition_pairs_virtualAngles", "C01.guard_forward_model", "C01.composition",
         "C01.detFromQaz_sound", "C01.threeSample_detector_sound", "C01.twoSampleAndReference_detector_sound"],
@@ -22,7 +23,9 @@ SPEC = {
         "C01.refConChiEta_sound", "C01.refConChiMu_sound", "C01.refConMuPhi_sound", "C01.refConEtaPhi_sound", "C01.twoSampleReference_sound",
         "C01.lastSampleAngle_sound", "C01.qazValue_sound", "C01.threeSample_sample_sound"],
         "DiffcalcProofs.Props.C01Detector": ["C01.eq_of_sq_eq_of_sign", "C01.detFromDelta_sound", "C01.detFromNu_sound", "C01.detRemaining_sound"],
-        "DiffcalcProofs.Props.C01Assembly": ["C01.ttheta_eq", "C01.detSamp2_qaz_exact", "C01.detSamp2_exact"]},
+        "DiffcalcProofs.Props.C01Assembly": ["C01.ttheta_eq", "C01.detSamp2_qaz_exact", "C01.detSamp2_exact"],
+        "DiffcalcProofs.Props.C01Assembly2": ["C01.threeSample_mem", "C01.samp3_exact", "C01.refSpec_sampleSpec", "C01.twoSampleAndReference_sound",
+                                              "C01.refSamp2_exact", "C01.detOrNaz_sound", "C01.detRefSamp_exact"]},
     "level": "proof",
     "rule": "all 185 implemented modes x requests built from random physical positions over (-180,180]^6 (so that solutions exist), oblique "
             "cells, rotated U, hkl- and lab-frame vectors of non-unit length, plus special-value requests (multiples of 30/45/90 deg, axis hkl) and "
@@ -31,8 +34,10 @@ SPEC = {
             "distinct = modes with at least one returned list",
     "assumptions": ["numerically singular requests (outcome not invariant under 1e-7 perturbations of the inputs) are excluded from the model comparison, and counted"],
     "partial": "proved for all modes: nothing is returned unless it passes the read-back guard (|get_hkl - hkl| <= 1e-3 per index, and get_hkl IS the forward model, C04) and the "
-               "dictionary is get_virtual_angles of that position; exact soundness (residual 0 over the reals) is proved for the detector layer used by 10 of the 23 dispatch branches; "
-               "the remaining sample-layer branches are covered by correspondence + oracle only",
+               "dictionary is get_virtual_angles of that position; exact soundness (residual 0 over the reals: candidates => forward model = hkl) is proved end to end for all four mode families "
+               "(27 detector+two-sample, 4 three-sample, 42 reference+two-sample, 112 detector-or-naz+reference+one-sample shapes = all 185) on the generic branch of every layer "
+               "(no clipping by bound(), no coincident-root / gimbal-lock shortcut, reference vector not within 1e-7 of the scattering vector); the non-generic branches are covered by "
+               "the guard theorem, correspondence and oracle",
     "search_widen": 4,
 }
 
